@@ -246,7 +246,7 @@ void check_filter(const Sk& r, const Obs& src, int sel, const char* what, uint64
 
 template <class T>
 void run_upd(const Case& cs, Trace* tr) {
-  uint8_t lg_k = static_cast<uint8_t>(std::min<int64_t>(12, std::max<int64_t>(5, cs.get("lg_k", 5))));
+  uint8_t lg_k = static_cast<uint8_t>(std::min<int64_t>(16, std::max<int64_t>(5, cs.get("lg_k", 5))));
   int rf = static_cast<int>(cs.get("rf", 3) & 3);
   float p = p_from(cs.get("p", 0));
   uint64_t seed = seed_from(cs.get("seed", 0));
@@ -337,6 +337,7 @@ void run_upd(const Case& cs, Trace* tr) {
   if (c.repeat_across_rebuild) vf::label("repeat-across-rebuild");
   if (c.screened && p < 1.0f) vf::label("p-screened");
   if (__builtin_popcount(c.types_mask) >= 3) vf::label("types>=3");
+  if (lg_k > 12) vf::label("lg_k>12");
   if (c.repeat_across_rebuild) vf::nontrivial();
 }
 
@@ -804,7 +805,7 @@ rc::Gen<Case> gen_upd() {
   });
   return make_case({{"st", range(0, 3)},
                     {"nv", range(0, 3)},
-                    {"lg_k", rc::gen::weightedOneOf<int64_t>({{8, range(5, 7)}, {3, range(8, 10)}, {1, range(11, 12)}})},
+                    {"lg_k", rc::gen::weightedOneOf<int64_t>({{16, range(5, 7)}, {6, range(8, 10)}, {2, range(11, 12)}, {1, range(13, 16)}})},
                     {"rf", range(0, 3)},
                     {"p", rc::gen::weightedOneOf<int64_t>({{3, rc::gen::just<int64_t>(0)}, {2, range(1, 3)}})},
                     {"seed", rc::gen::weightedOneOf<int64_t>({{2, rc::gen::just<int64_t>(0)}, {1, range(1, 1 << 20)}})}},
